@@ -67,6 +67,9 @@ type FuncContract struct {
 	Preserves []string // with "modifies heap": components that keep their value nevertheless
 	HasModifies bool
 	Loops    map[int][]*Clause // invariants / decreases per loop ordinal
+	CallAssume map[string][]*Clause // "call Name#k assume e": a fact about the state after that call (old() = before it), trusted
+	CallPreserves map[string][]string // "call Name#k preserves items": what the callee keeps at that call site beyond its contract (trusted)
+	InlineLoops map[string]map[int][]*Clause // "loop callee.N ...": clauses for loop N of a function inlined into this one
 	Monitors []*Monitor
 	Waive    map[string]bool
 	Abstract []string // "abstract call <pattern>": opaque calls whose effect is limited to modifies <frame>
@@ -194,6 +197,7 @@ var shortPkgs = map[string]string{
 	"list":         "container/list",
 	"codes":        repoMod + "/pkg/codes",
 	"mem":          repoMod + "/persistence/subscription/mem",
+	"federation":   repoMod + "/plugin/federation",
 }
 
 func resolveShort(q string) string {
@@ -397,6 +401,12 @@ func (cs *Contracts) LoadContractFile(path, pkgPath string) error {
 			if len(fs) < 3 {
 				return fail(l.line, "loop: want 'loop N invariant|decreases|step expr'")
 			}
+			inl := ""
+			if i := strings.LastIndex(fs[0], "."); i > 0 {
+				// "loop callee.N ...": loop N of the function "callee" inlined into this one; the clause may name the
+				// locals of both (the inlined function's first)
+				inl, fs[0] = fs[0][:i], fs[0][i+1:]
+			}
 			n, err := strconv.Atoi(fs[0])
 			if err != nil {
 				return fail(l.line, "loop ordinal: %v", err)
@@ -409,7 +419,17 @@ func (cs *Contracts) LoadContractFile(path, pkgPath string) error {
 				return err
 			}
 			c.Loop = n
-			cur.Loops[n] = append(cur.Loops[n], c)
+			if inl != "" {
+				if cur.InlineLoops == nil {
+					cur.InlineLoops = map[string]map[int][]*Clause{}
+				}
+				if cur.InlineLoops[inl] == nil {
+					cur.InlineLoops[inl] = map[int][]*Clause{}
+				}
+				cur.InlineLoops[inl][n] = append(cur.InlineLoops[inl][n], c)
+			} else {
+				cur.Loops[n] = append(cur.Loops[n], c)
+			}
 		case "monitor":
 			if cur == nil {
 				return fail(l.line, "monitor outside func")
@@ -562,6 +582,28 @@ func (cs *Contracts) LoadContractFile(path, pkgPath string) error {
 					return fail(l.line, "%v", err)
 				}
 				cur.CallWitness[fs[0]] = append(cur.CallWitness[fs[0]], LetDef{strings.TrimSpace(fs[2][:i]), e})
+				continue
+			}
+			if len(fs) >= 3 && fs[1] == "preserves" {
+				if cur.CallPreserves == nil {
+					cur.CallPreserves = map[string][]string{}
+				}
+				for _, it := range splitTop(fs[2]) {
+					if it = strings.TrimSpace(it); it != "" {
+						cur.CallPreserves[fs[0]] = append(cur.CallPreserves[fs[0]], it)
+					}
+				}
+				continue
+			}
+			if len(fs) >= 3 && fs[1] == "assume" {
+				c, err := mk("assume", fs[2])
+				if err != nil {
+					return err
+				}
+				if cur.CallAssume == nil {
+					cur.CallAssume = map[string][]*Clause{}
+				}
+				cur.CallAssume[fs[0]] = append(cur.CallAssume[fs[0]], c)
 				continue
 			}
 			if len(fs) < 3 || (fs[1] != "invariant" && fs[1] != "assert") {
